@@ -20,6 +20,7 @@
 #include <ctime>
 #include <string>
 #include <fcntl.h>
+#include <sys/time.h>
 #include <sys/wait.h>
 #include <unistd.h>
 
@@ -126,8 +127,29 @@ static void on_alarm(int)
 }
 static void arm_watchdog(unsigned seconds)
 {
+    // Two limits: processor time (a run that spins; not fooled by a loaded machine, where a slow but
+    // terminating run must not be called a hang) and, much later, wall time (a run that blocks for real).
+#ifdef SIM_TSAN
+    // ThreadSanitizer delivers asynchronous signals at its next interceptor only: a thread that spins inside an
+    // uninstrumented library routine (a corrupted tree under std::multimap::insert) would never see the handler.
+    // With the default disposition the kernel ends the process itself; the orchestrator reads "killed by
+    // SIGPROF / SIGALRM" as a hang.
+    signal(SIGALRM, SIG_DFL);
+    signal(SIGPROF, SIG_DFL);
+#else
     signal(SIGALRM, on_alarm);
-    alarm(seconds);
+    signal(SIGPROF, on_alarm);
+#endif
+    itimerval it{};
+    it.it_value.tv_sec = seconds;
+    setitimer(ITIMER_PROF, &it, nullptr);
+    alarm(seconds * 8);
+}
+static void disarm_watchdog()
+{
+    itimerval it{};
+    setitimer(ITIMER_PROF, &it, nullptr);
+    alarm(0);
 }
 
 static uint64_t prop_salt(const std::string& world, const std::string& prop) { return fnv1a(world + "/" + prop); }
@@ -174,7 +196,7 @@ static int cmd_run(int argc, char** argv)
             SeqPlan    plan = gen_seq_plan(mix3(seed, prop_salt(world, prop), i), prof);
             arm_watchdog(10);
             SeqOutcome out  = run_seq(plan, nullptr, prop);
-            alarm(0);
+            disarm_watchdog();
             agg.add(out.st);
             if (out.other.any())
                 for (auto& p : out.other.props)
@@ -251,7 +273,7 @@ static int cmd_run(int argc, char** argv)
                     }
                 }
             }
-            alarm(0);
+            disarm_watchdog();
             agg.add(out.st);
             agg.traces.insert(out.trace_hash);
             if (out.st.nontrivial.count(prop))
@@ -382,7 +404,7 @@ static int cmd_replay(int argc, char** argv)
 static int g_ctx_fd = -1;
 // Executes the plan in a forked child; returns the violation class it ends in:
 // the check id, "crash" for a sanitizer abort / signal, "hang" for a timeout, "" for a clean run.
-static std::string classify_forked(const js::Value& plan, std::string* props_out = nullptr, std::string* detail_out = nullptr)
+static std::string classify_forked_raw(const js::Value& plan, std::string* props_out = nullptr, std::string* detail_out = nullptr)
 {
     int fds[2];
     if (pipe(fds) != 0)
@@ -399,7 +421,16 @@ static std::string classify_forked(const js::Value& plan, std::string* props_out
         {
             dup2(devnull, 2);
         }
-        alarm(6);
+        {
+            // the same limits as a campaign worker (processor time first, wall time as a backstop), with the
+            // default dispositions: the parent reads the terminating signal
+            signal(SIGALRM, SIG_DFL);
+            signal(SIGPROF, SIG_DFL);
+            itimerval it{};
+            it.it_value.tv_sec = plan.gets("world", "seq") == "seq" ? 10 : 20;
+            setitimer(ITIMER_PROF, &it, nullptr);
+            alarm((unsigned)it.it_value.tv_sec * 8);
+        }
         // the child reports which call it is about to make: if it dies, the last tag says where
         g_ctx_fd         = fds[1];
         g_seq_call_hook  = [](const char* tag) {
@@ -443,7 +474,7 @@ static std::string classify_forked(const js::Value& plan, std::string* props_out
     // an erase of an absent key) is C19's as well
     const std::string crash = last_tag == "rr_evict" ? "crash.rr_evict" : last_tag == "noeffect" ? "crash.noeffect" : "crash";
     if (WIFSIGNALED(status))
-        return WTERMSIG(status) == SIGALRM ? "hang" : crash;
+        return (WTERMSIG(status) == SIGALRM || WTERMSIG(status) == SIGPROF) ? "hang" : crash;
     if (WIFEXITED(status) && WEXITSTATUS(status) != 0)
         return crash;
     if (res == std::string::npos)
@@ -458,6 +489,43 @@ static std::string classify_forked(const js::Value& plan, std::string* props_out
     if (detail_out && b != std::string::npos)
         *detail_out = buf.substr(b + 1, buf.size() - b - 2);
     return buf.substr(0, a);
+}
+
+// C20 says that a cleared cache cannot be told from a freshly constructed one.  A run that dies after a
+// clear() is C20's (as well as C08's) exactly when the calls that follow the clear() do not die on a fresh
+// instance (same configuration, same clock readings): that is decided by executing that suffix, not guessed
+// from where the run died.  Only asked for when the focus is C20, so that C08's own classes stay as they are.
+static std::string classify_forked(const js::Value& plan, std::string* props_out = nullptr, std::string* detail_out = nullptr)
+{
+    std::string c = classify_forked_raw(plan, props_out, detail_out);
+    if (g_focus != "C20" || c.rfind("crash", 0) != 0 || plan.gets("world", "seq") != "seq")
+        return c;
+    SeqPlan sp;
+    if (!sp.from_json(plan))
+        return c;
+    sp.normalize();
+    if (sp.cfg.cont == Cont::rr)
+        return c; // the victim stream of the suffix would not line up
+    long last = -1;
+    for (size_t i = 0; i < sp.steps.size(); ++i)
+        if (sp.steps[i].op.kind == OpKind::clear)
+            last = (long)i;
+    if (last < 0)
+        return c;
+    SeqPlan suf = sp;
+    for (long i = 0; i <= last; ++i)
+    {
+        suf.clock_start += sp.steps[(size_t)i].adv_ns;
+        if (sp.steps[(size_t)i].op.kind == OpKind::update_ttl)
+            suf.cfg.ttl_ms = sp.steps[(size_t)i].op.ttl_ms;
+    }
+    suf.steps.erase(suf.steps.begin(), suf.steps.begin() + last + 1);
+    std::string s = classify_forked_raw(suf.to_json());
+    if (s.rfind("crash", 0) == 0 || s == "hang" || s.rfind("harness", 0) == 0)
+        return c;
+    if (props_out)
+        *props_out = "C08,C20";
+    return "crash.after_clear";
 }
 
 static int cmd_classify(int argc, char** argv)
